@@ -246,3 +246,56 @@ func stores(c *rig.Ctx) {
 		c.Exact(1)
 	})
 }
+
+// longAfter: a transfer is over after its 162 cycles, for good. The source page is rewritten
+// once it has ended and the machine runs on for more than 2^16 (thorough: 2^17+) machine cycles:
+// OAM must still hold the bytes as they were when copied, and FE00-FE9F must stay readable.
+func longAfter(c *rig.Ctx) {
+	c.Require("transfers_watched_long_after")
+	c.Part("long-after", 8, func(i int64, r *rig.Rng) {
+		m := rig.MustNew(rig.BlankROM(0, 0, 0), rig.Opts{})
+		for k := 0; k < 4; k++ {
+			m.Step()
+		}
+		if i%2 == 0 {
+			m.Mem.Write(0xff40, 0x11)
+		}
+		page := uint8(0xc0 + r.Intn(0x20))
+		var src [160]uint8
+		for k := range src {
+			src[k] = r.U8()
+			m.Mem.Write(uint16(page)<<8+uint16(k), src[k])
+		}
+		m.Mem.Write(0xff46, page)
+		tick := func(n int) {
+			for k := 0; k < n; k++ {
+				m.PPU.EndMachineCycle()
+				m.Mem.EndMachineCycle()
+			}
+		}
+		tick(170)
+		for k := range src {
+			m.Mem.Write(uint16(page)<<8+uint16(k), ^src[k])
+		}
+		n := 1<<16 + 4000
+		if c.Thorough() {
+			n = 1<<17 + 4000
+		}
+		for done := 0; done < n; done += 997 {
+			tick(997)
+			snap := m.OAM.XSnapshot()
+			for k := 0; k < 160; k++ {
+				if snap[k] != src[k] {
+					c.Violate("oam-changes-long-after-a-transfer", fmt.Sprintf("transfer from page %02X, source page rewritten after it had ended: %d cycles later OAM[%02X] holds %02X, copied was %02X (no transfer has been started since)", page, 170+done+997, k, snap[k], src[k]), nil)
+					return
+				}
+			}
+			if run, _ := m.OAM.XDMA(); run {
+				c.Violate("transfer-running-long-after", fmt.Sprintf("a transfer is reported running %d cycles after the only FF46 store", 170+done+997), nil)
+				return
+			}
+		}
+		c.Count("transfers_watched_long_after", 1)
+		c.Exact(1)
+	})
+}
